@@ -121,8 +121,8 @@ def gen(rng, tier):
 TECHNIQUE = "Lean 4 theorems (induction over all Get/release histories) + model/implementation correspondence run"
 LEVEL_TEXT = ("Machine-checked Lean 4 theorems about an executable model of BufferPool and of the sockets' "
               "receive-buffer discipline: limit, unlimited, freshness/emptiness/reserved capacity, conservation "
-              "(no allocation while idle / after construction), release-reuse with storage intact, and receive pools "
-              "always available - for every history of any length. The model is tied to /repo on every run by driving "
+              "(no allocation while idle / after construction), release-reuse with storage intact (capacity monotone over "
+              "whole histories), receive pools always available and never regrown once warm - for every history of any length. The model is tied to /repo on every run by driving "
               "the real BufferPool / sockets with generated histories and comparing every observation with the model, "
               "and by evaluating the property predicate directly on the implementation's observations.")
 LEVEL_NOTE = ("Trusted: Lean kernel; axioms propext/Quot.sound/Classical.choice; the hand-written model (checked by "
